@@ -17,7 +17,8 @@ LIMITS = {'quick': dict(max_inputs=5, max_gates=16), 'thorough': dict(max_inputs
 def cases(draw, tier):
     lim = LIMITS[tier]
     nl = draw(gen.netlists(min_inputs=0, max_inputs=lim['max_inputs'], max_gates=lim['max_gates'],
-                           max_arity=5, wide_arity=13, styles=('plain', 'digits', 'mixed'), max_outputs=4, const_operands=(0, 0, 2, 1)))
+                           max_arity=5, wide_arity=13, styles=('plain', 'digits', 'mixed'), max_outputs=4, const_operands=(0, 0, 2, 1),
+                           dup_rate=draw(st.sampled_from([0, 2, 3, 4]))))
     wrap = draw(st.integers(0, 3)) == 0 and len(nl['gates']) > 0
     if wrap:
         # tautological top gate over the (deep) cone of some gate: every row is satisfiable and every
